@@ -465,6 +465,52 @@ def check_relational(ctx: Ctx, rule: str):
             ctx.check(flat == want, rule, key, f"`{op}` -> {want.split('(')[0]}(..)", f"_print_Relational writes `lhs {op} rhs` as `{flat[:90]}`, which the loader reads as another relation than {want.replace(L, 'lhs').replace(R, 'rhs')}", rel.where())
 
 
+def check_ite_rewritten(ctx: Ctx, rule: str, key: str):
+    """The writer has no method for ITE (sympy would write `ITE(a, b, c)`, which the grammar rejects): every condition the
+    shared `_print_Piecewise` helper prints goes through `simplify_logic` when it contains one."""
+    from sa import av as _av
+
+    from . import util
+
+    f = ctx.sm.func("codegen/base.py", "_print_Piecewise", required=False)
+    wr = printers.model(ctx).method("ode", "_print_Piecewise")
+    if f is None or wr is None or not any(isinstance(n, ast.Call) and norm(n.func).split(".")[-1] == "_print_Piecewise" and not norm(n.func).startswith("super") for n in ast.walk(wr.node)):
+        ctx.undecided(rule, key, "the writer's _print_Piecewise does not print its conditions through codegen.base._print_Piecewise; how an ITE inside a condition is written is not understood", wr.where() if wr else "")
+        return
+    v = util.value_of(ctx, f)
+    if _av.has_unk(v):
+        ctx.undecided(rule, key, "what codegen.base._print_Piecewise returns is not understood", f.where())
+        return
+    printed = [c for c in _av.find_all(v, "mcall") if c[2] == "_print" and any("cond" == a_[-1] for a_ in _av.find_all(c, "attr"))]
+    if not printed:
+        ctx.undecided(rule, key, "no condition printed by codegen.base._print_Piecewise was found", f.where())
+        return
+
+    def guarded(term, path=()):
+        """every printing of a raw condition sits in the else-branch of an `if <cond>.has(ITE)` whose then-branch rewrites it"""
+        bad = []
+        if not isinstance(term, tuple):
+            return bad
+        if term and term[0] == "if":
+            c = term[1]
+            is_guard = any(m_[2] == "has" and "ITE" in _av.show(m_) for m_ in _av.find_all(c, "mcall"))
+            if is_guard:
+                then_ok = any(str(c_[1]).split(".")[-1] in ("simplify_logic", "to_nnf", "to_cnf", "to_dnf") for c_ in _av.find_all(term[2], "call"))
+                if not then_ok:
+                    bad.append(term[2])
+                return bad + guarded(term[3], path + ("else",))
+        if term and term[0] == "mcall" and term[2] == "_print" and any("cond" == a_[-1] for a_ in _av.find_all(term, "attr")):
+            if "else" not in path and not any(str(c_[1]).split(".")[-1] in ("simplify_logic", "to_nnf", "to_cnf", "to_dnf") for c_ in _av.find_all(term, "call")):
+                bad.append(term)
+            return bad
+        for x in term:
+            bad += guarded(x, path)
+        return bad
+
+    bad = guarded(v)
+    ctx.check(not bad, rule, key, "a condition that contains an ITE is rewritten with simplify_logic before it is printed", f".ode writer: a Piecewise condition is printed as `{_av.show(bad[0])[:90] if bad else ''}` without rewriting an ITE in it (a relation applied to a Conditional becomes one): sympy writes `ITE(a, b, c)`, which the loader rejects", f.where())
+
+
 def check_writer_rows(ctx: Ctx, rule: str, only: set | None = None):
     """writer rows: every producible class is written by a vetted re-parsable inherited method or by a gotranx method
     that only emits heads the grammar accepts"""
@@ -478,6 +524,9 @@ def check_writer_rows(ctx: Ctx, rule: str, only: set | None = None):
             continue
         r = M.resolve("ode", mod, name)
         key = f"writer::{name}"
+        if name in pm.ONLY_IN_CONDITIONS and not r.is_gotranx:
+            check_ite_rewritten(ctx, rule, key)
+            continue
         if not r.is_gotranx:
             v = pm.vetted("ode", r)
             if v is None:
